@@ -312,8 +312,16 @@ def analyse(R, prog):
         else:
             R0.unknown("HISTORY-SEMANTICS", "%s update histories" % cname, anchor.key, v[1])
         R = Result(P, "")
+        from .. import report as _report
+        n0 = len(_report.DEFERRED)
         try:
-            _analyse_class(R, prog, cname, spec, ci)
+            try:
+                _analyse_class(R, prog, cname, spec, ci)
+            finally:
+                if v[0] is True:
+                    for msg in _report.DEFERRED[n0:]:
+                        R0.unknown("HISTORY-SEMANTICS", "%s representation shape" % cname, anchor.key, "shape rule below its floor (%s); confirmed by folding" % msg[:140])
+                    del _report.DEFERRED[n0:]
         except AnalysisError as e:
             if v[0] is not True:
                 raise
